@@ -16,6 +16,7 @@ Decided on the MIR of the fast_verify builds:
       suffix on one hasher
   M5  workers are joined before results are used: no detached `thread::spawn` below sign_mut; the scope call dominates
       the drain of the channel; every Sender local is dropped or moved before the drain (otherwise the drain never ends)
+      senders never block: the channel drained after the join is unbounded, or bounded by the named worker count
   M6  the panic-freedom engine from `sign_mut` (all hash sizes x all LM-OTS rows): every site in the fast-verify code is
       discharged - interval analysis, budgets, and reviewed obligations tied to table facts (digit index / shift / checksum
       position per (n, w) row)
